@@ -30,6 +30,10 @@ from props.base import corpus_for
 from props import c08_api
 
 ID = 'C08'
+# ops that observe a private intermediate of the code (_slice_beginning / _slice_end / _merge_similar / _unpack / _typeinfo): a disagreement there alone -- every public op of the run agreeing,
+# no oracle clause failing -- is not counted (harness/check.py, PRIVATE_OPS)
+PRIVATE_OPS = ('rt_fn',)
+
 LEAN_MODULES = ['PybtexModel.Props.C08', 'PybtexModel.Props.C08Api']
 THEOREMS = {
     'C08_tables': 'the regenerated constants the model depends on: every entry of textutils.terminators is one character; whitespace_re is \\s+',
